@@ -319,6 +319,65 @@ def make_body(max_lines, orders, second, KINDS=KINDS, endings_phase=False):
     return body
 
 
+ENV_KINDS = ['clean', 'name', 'syntax', 'marker']
+
+
+def body_environment(ctx):
+    """The GradeScope environment's own walk (its next_section() moves on, verifies, analyses and runs in one call)
+    over a student file that is not called answer.py: every line reported is the line of the whole file."""
+    import io, contextlib
+    from pedal.environments.gradescope import GradeScopeEnvironment
+    L = ctx.choose(4, 'lines') + 1
+    kinds = [ENV_KINDS[ctx.choose(len(ENV_KINDS), 'k%d' % i)] for i in range(L)]
+    fname = ('student_code.py', 'answer.py')[ctx.choose(2, 'file-name')]
+    src = mk(kinds, '##### Part %d')
+    case = {'file': src, 'file_name': fname, 'route': 'GradeScope environment'}
+    ctx.observe(repr(case))
+    ctx.set_sample(case)
+    if 'marker' in kinds and any(k in ('name', 'syntax') for k in kinds[kinds.index('marker'):]):
+        ctx.mark_nontrivial(repr(case))
+    cmds.clear_report()
+    sp = spans(src, DEFAULT_PAT)
+    try:
+        with contextlib.redirect_stdout(io.StringIO()):
+            env = GradeScopeEnvironment(main_file=fname, main_code=src, skip_run=False)
+            sections.separate_into_sections(independent=True)
+            for k in range(1, len(sp)):
+                n0 = len(MAIN_REPORT.feedback)
+                ctx.step(('env.next_section', k))
+                env.next_section()
+                code = src[sp[k][0]:sp[k][1]]
+                offset = src[:sp[k][0]].count("\n")
+                for f in MAIN_REPORT.feedback[n0:]:
+                    if f.location is None or f.location.line is None:
+                        continue
+                    ln = f.location.line
+                    if f.category == 'syntax' and f.label in ('syntax_error', 'indentation_error'):
+                        try:
+                            ast.parse(code)
+                            exp = None
+                        except SyntaxError as e2:
+                            exp = (e2.lineno or 1) + offset
+                        if exp != ln:
+                            ctx.fail({'symptom': 'syntax error line is not the whole-file line', 'pass': 'environment',
+                                      'where': 'section', 'mode': 'independent'}, case=case, k=k, got=ln, want=exp)
+                        continue
+                    name = f.fields.get('name') if isinstance(f.fields, dict) else None
+                    if f.label == 'name_error':
+                        m = re.search(r"name '([a-z]\d+)'", str(f.fields.get('exception', '')) + f.message)
+                        name = m.group(1) if m else None
+                    if name and re.fullmatch(r'[aux]\d+', str(name)) and f.label in (
+                            'initialization_problem', 'possible_initialization_problem', 'name_error', 'unused_variable'):
+                        if ln != int(str(name)[1:]) + 1:
+                            ctx.fail({'symptom': 'reported line is not the whole-file line', 'label': f.label,
+                                      'category': f.category, 'mode': 'independent', 'pass': 'environment', 'where': 'section'},
+                                     case=case, k=k, got=ln, want=int(str(name)[1:]) + 1)
+    except Exception as e:
+        ctx.fail({'symptom': 'tool raised inside a section', 'tool': 'environment', 'exception': type(e).__name__}, case=case,
+                 message=str(e)[:200])
+    ctx.outcome('environment')
+
+
 def body_own_report(ctx):
     """The same walk on a Report of the caller's own (every call gets report=own) while the global report holds another
     submission: chunks, whole-file lines and the not-enough-sections feedback belong to the own report, the global
@@ -416,6 +475,8 @@ def phases(tier):
                       describe='files of <=4 lines whose sections define functions that fail when the instructor calls them'),
                 Phase('deep-library-failures', make_body(4, [TOOLS], False, ['clean', 'marker', 'deeplib', 'lib']), setup=_setup, chunk=300,
                       describe='files of <=4 lines with failures raised 1 or 12 library frames below the student line'),
+                Phase('environment', body_environment, setup=_setup, chunk=50,
+                      describe='files of <=4 lines walked by the GradeScope environment (file called answer.py or not)'),
                 Phase('own-report', body_own_report, setup=_setup, chunk=300,
                       describe='files of <=3 lines walked on a caller-owned Report (report= on every call); global report untouched'),
                 Phase('endings', make_body(3, [TOOLS], False, ['clean', 'name', 'marker'], endings_phase=True), setup=_setup, chunk=300,
